@@ -15,7 +15,7 @@ The model of values is the code as repaired by fixes/C36.diff (see findings/C36.
 
 Table / MatrixTable level: coq/theories/Typing/TableModel.v — [telab]: what the Table / MatrixTable methods report (row / key /
 globals / col / entry types, built from the dtypes they DECLARE, among them the dtype Table._index declares for a lookup) and
-which relational IR they emit (TableRange, TableKeyBy, TableMapRows, TableMapGlobals, TableFilter, TableLeftJoinRightDistinct,
+which relational IR they emit (TableRange, TableKeyBy, TableMapRows, TableMapGlobals, TableFilter, TableOrderBy, TableLeftJoinRightDistinct,
 TableIntervalJoin with its product flag, MatrixRows/Cols/EntriesTable, MatrixRead of a range, MatrixMapRows/Cols/Entries/Globals,
 MatrixKeyRowsBy, MatrixAnnotateRowsTable with its product flag); [strict_type]: the engine's typ of these nodes (TableIR.scala /
 MatrixIR.scala, the assertions of TypeCheck.scala and of the TableType / MatrixType constructors), every value IR re-typed from
@@ -56,7 +56,7 @@ META = dict(
                'strict IR typing rules (all operand types agree: the front end inserted every conversion); (2) for EVERY Python value '
                'built from None/bool/int/float/str/list/tuple/Struct: if impute_type gives a type, the value satisfies it (ranges, '
                'struct fields, tuple lengths, recursively); (3) for EVERY Table / MatrixTable program over range_table, key_by(names), '
-               'annotate, select(names), drop(names), annotate_globals, filter, annotate with ONE lookup r.index(k1.., all_matches) by '
+               'annotate, select(names), drop(names), annotate_globals, filter, order_by(names, ascending / descending), annotate with ONE lookup r.index(k1.., all_matches) by '
                'non-key expressions (TableLeftJoinRightDistinct on exact key types; TableIntervalJoin with product = all_matches for an '
                'interval key indexed by a point), rows()/cols()/entries(), range_matrix_table, annotate_rows/_cols/_entries/_globals, '
                'key_rows_by/key_cols_by(names), annotate_rows with ONE lookup into an interval-keyed table (MatrixAnnotateRowsTable with '
@@ -74,6 +74,7 @@ META = dict(
                'the key expressions\' dtypes) are boolean tests on the computed types, not proved invariants: the run reports a '
                'disagreement if the model rejects a program the real front end accepts. Checked on the implementation only (oracle: real '
                'tir.typ, deep recomputation, independent Python strict checker, lookup dtype = join field type; NOT in the Coq model): '
+               'order_by with computed sort expressions, '
                'lookups by the key fields themselves (no re-keying, key prefixes), MatrixTable row/col lookups into point-keyed tables '
                '(MatrixAnnotateRowsTable/ColsTable by key), index_rows/index_cols/index_entries from a table, Table.join (TableJoin), '
                'key_by with computed keys, filter with a lookup, several lookups in one operation. Outside both: all_matches on a point '
@@ -86,6 +87,16 @@ META = dict(
                'annotate with two fields read from the same struct (Let-deduplication), dict/set/float32/locus/call/ndarray values, '
                'Structs with different field sets in one list (the real union has an unspecified order; covered by the oracle only). '
                'The IR typing rules are a strict reading of ir.py (_compute_type) standing in for the engine\'s checker: modelled, not run.',
+    strict_rules='Relational nodes the table language can emit, each with an independent strict rule transcribed from the SCALA side (file:line '
+                 'in the header comment of Typing/TableModel.v), never from the Python _compute_type. In Coq (strict_type) AND in the Python '
+                 'checker (c36_tlang.strict_rel): TableRange, TableKeyBy, TableMapRows, TableMapGlobals, TableFilter, TableOrderBy (key = [], '
+                 'TableIR.scala:2593), TableLeftJoinRightDistinct, TableIntervalJoin (product), MatrixRowsTable, MatrixColsTable, '
+                 'MatrixEntriesTable, MatrixRead(MatrixRangeReader), MatrixMapRows, MatrixMapCols (new key), MatrixMapEntries, MatrixMapGlobals, '
+                 'MatrixKeyRowsBy, MatrixAnnotateRowsTable (product). Python checker only: TableJoin (TableIR.scala:2267, TypeCheck:621), '
+                 'MatrixAnnotateColsTable (MatrixIR.scala:760, TypeCheck:698, LowerMatrixIR.scala:236). Emitted by some programs of the '
+                 'language but NOT exported / typed (such programs are counted as outside, never judged by the Python tir.typ alone): '
+                 'TableAggregateByKey / TableKeyByAndAggregate (collect_by_key, foreign-key matrix joins), the localize-entries pipeline of '
+                 'MatrixTable-to-MatrixTable index_entries (CastMatrixToTable, TableRename, ...), TableGetGlobals (index_globals), is_sorted key_by.',
     partial=True,
 )
 TRUSTED = ['hand model coq/theories/Typing/Model.v tied to the front end only by the correspondence run (X)',
